@@ -123,3 +123,27 @@ Proof. vm_compute. repeat split; reflexivity. Qed.
    mongo counters start at 1) *)
 Example c08_guard_zero_gap : guard_run 0 [0; 0; -1]%list = [Some 0; Some 0; Some (-1)]%list.
 Proof. reflexivity. Qed.
+
+(* ------------------------------------------------------------------------------------------
+   Tie to the source (C08/Source.v): the head of SeqIDGen.Next - the in-segment fast path that
+   hands out lastID+1 without asking the store - and NewSeqIDGen's default step are
+   regenerated from seq.go by tools/gofunc on every run (Generated/SeqID.v, fragments) and are
+   the model's; [next_reload] is the model's remaining branch (the store is asked). *)
+From FV Require Import Generated.SeqID Lib.GoSem C08.Source.
+
+Theorem c08_src_next : forall g a,
+  next g a =
+  match go_SeqIDGen_Next_prefix (g_last g) (g_counter g) (g_step g) with
+  | Returned _ last' => (OId last', mkGen (g_step g) (g_counter g) last')
+  | Reached _ => next_reload g a
+  end.
+Proof. exact src_next. Qed.
+Print Assumptions c08_src_next.
+
+Theorem c08_src_new_gen : forall step, - 2 ^ 31 <= step < 2 ^ 31 ->
+  match go_NewSeqIDGen_prefix step with
+  | Reached step' => new_gen step = mkGen step' 0 0
+  | Returned _ _ => False
+  end.
+Proof. exact src_new_gen. Qed.
+Print Assumptions c08_src_new_gen.
